@@ -231,6 +231,12 @@ fn install_fault_handlers(hang_secs: u64) {
     }
 }
 
+/// Progress tick for explorations that run for a long time without entering `Ctx::mine` / `inner`
+/// (the stateright search): keeps the watchdog from mistaking them for a hang.
+pub fn tick() {
+    PROGRESS.fetch_add(1, Ordering::Relaxed);
+}
+
 /// Run `f`, catching a panic; the panic message is returned as Err.
 pub fn guard<T>(f: impl FnOnce() -> T) -> Result<T, String> {
     match catch_unwind(AssertUnwindSafe(f)) {
